@@ -140,6 +140,22 @@ def generate(ctx, n_ops):
                 qcount += 1
             else:
                 continue
+        elif r < 0.985:
+            # a dimensionless ratio of two units of one dimension, a power of it, and a root of that: the
+            # dimension is Number throughout while the factors are not trivial (m^3/ft^3 -> root 2 must raise)
+            a = ctx.pick_unit()
+            same = [j for j in ctx.same_dimension_units(a, 10) if j != a]
+            if not same:
+                continue
+            res = yield "U\tdiv\tu%d\tu%d" % (a, rng.choice(same))
+            emitted += 1
+            if not res.startswith("ok\tu"):
+                continue
+            res = yield "U\tpow\t%s\t%d" % (res.split("\t")[1], rng.choice([2, 3, -3, 5]))
+            emitted += 1
+            if not res.startswith("ok\tu"):
+                continue
+            line = "U\troot\t%s\t%d" % (res.split("\t")[1], rng.choice([2, 3, -2]))
         else:
             line = "STATE"
         res = yield line
